@@ -21,7 +21,7 @@ TIME_CAP = {"quick": 60, "thorough": 900}
 RECURSION_LIMIT = 500
 STEP_BUDGET = 60_000
 CALL_DEPTH = 200  # frames allowed above the monitored call
-REQUIRED = ["aggregate_validator_cases", "programs", "cases", "class_validator_ran", "skipped:invalid-dep", "skipped:discarded-dep", "skipped:all-default", "outcome:ok",
+REQUIRED = ["aggregate_validator_cases", "cycle_validator_cases", "programs", "cases", "class_validator_ran", "skipped:invalid-dep", "skipped:discarded-dep", "skipped:all-default", "outcome:ok",
             "outcome:verr", "ctor_checks", "mock_path_runs", "real_path_runs", "errors_compared", "order_checked", "values_compared",
             "cases_static_alias", "cases_dynamic_aliaser", "cases_initvar", "cases_inherited", "cases_field_validators", "cases_newtype",
             "cases_yield_style", "cases_field_decl", "cases_discard_decl", "cases_external_function", "cases_transitive_reads",
@@ -650,11 +650,89 @@ def aggregate_workload(env):
         sys.modules.pop(mod.__name__, None)
 
 
+def cycle_source(k, order, via_property):
+    """a class whose validators read their fields through a cycle of k helper methods h0 -> h1 -> ... -> h0 (bounded by a depth
+    argument), one validator entering the cycle at each helper, declared in the given order; `tail` is read directly"""
+    L = ["from dataclasses import dataclass", "from apischema import validator", "LOG = []", "", "@dataclass", "class Cyc:"]
+    L += [f"    f{i}: int" for i in range(k)] + ["    tail: int = 0"]
+    for i in range(k):
+        nxt = (i + 1) % k
+        L += [f"    def h{i}(self, n=0):", f"        x = self.f{i}", f"        return x + (self.h{nxt}(n + 1) if n < {k + 1} else 0)"]
+    if via_property:
+        L += ["    @property", "    def entry(self):", "        return self.h0()"]
+    for i in order:
+        call = "self.entry" if via_property and i == 0 else f"self.h{i}()"
+        L += ["    @validator", f"    def enters_{i}(self):", f"        LOG.append('enters_{i}')", f"        if {call} < 0:", f"            yield 'negative {i}'"]
+    L += ["    @validator", "    def reads_tail(self):", "        LOG.append('reads_tail')", "        if self.tail < 0:", "            yield 'negative tail'"]
+    return "\n".join(L) + "\n"
+
+
+def cycle_workload(env):
+    """dependencies reached *transitively through methods* that call each other in a cycle: every validator entering the cycle
+    depends on every field read anywhere in it, whatever the order in which the validators were analysed"""
+    import itertools
+    import linecache
+    import sys
+    import types
+    from apischema import deserialize
+
+    progs = []
+    for k in (2, 3, 4):
+        perms = list(itertools.permutations(range(k)))
+        if k == 4:
+            perms = env.rng.sample(perms, 6)
+        for order in perms:
+            progs.append((k, order, False))
+        progs.append((k, tuple(range(k)), True))
+        progs.append((k, tuple(reversed(range(k))), True))
+    for pi, (k, order, via_property) in enumerate(progs):
+        src = cycle_source(k, order, via_property)
+        mod = types.ModuleType(f"vfc10cyc_{env.shard}_{pi}")
+        sys.modules[mod.__name__] = mod
+        fn = f"<{mod.__name__}>"
+        mod.__file__ = fn
+        linecache.cache[fn] = (len(src), None, src.splitlines(True), fn)
+        try:
+            exec(compile(src, fn, "exec"), mod.__dict__)
+            harness.reset_all()
+            cyc = {f"enters_{i}" for i in range(k)}
+            for bad in itertools.product((False, True), repeat=k):
+                for tail in ("absent", "valid", "invalid", "failing"):
+                    d = {f"f{i}": ("bad" if bad[i] else i + 1) for i in range(k)}
+                    if tail != "absent":
+                        d["tail"] = {"valid": 5, "invalid": "bad", "failing": -1}[tail]
+                    skipped = (cyc if any(bad) else set()) | ({"reads_tail"} if tail in ("absent", "invalid") else set())
+                    mod.LOG.clear()
+                    r = harness.call(deserialize, mod.Cyc, d)
+                    env.count("cycle_validator_cases")
+                    env.case("method-cycle", f"k={k} property={via_property} invalid={sum(bad)} tail={tail}")
+                    wit = {"program": src, "datum": d, "observed": r.brief(), "validators_run": list(mod.LOG)}
+                    feats = {"family": "method-cycle", "cycle": k}
+                    if r.kind == "exc":
+                        env.violation({"kind": "exception", "exc": r.exc, **feats}, wit)
+                        continue
+                    ran = list(mod.LOG)
+                    if set(ran) & skipped:
+                        env.violation({"kind": "ran-although-not-runnable", "reason": "invalid-transitive-dep", **feats}, wit)
+                    if (cyc | {"reads_tail"}) - skipped - set(ran):
+                        env.violation({"kind": "not-run-although-runnable", **feats}, wit)
+                    if len(ran) != len(set(ran)):
+                        env.violation({"kind": "ran-twice", **feats}, wit)
+                    if [x for x in ran if x in cyc] != [f"enters_{i}" for i in order if f"enters_{i}" in ran]:
+                        env.violation({"kind": "order", **feats}, wit)
+                    if (r.kind == "ok") != (not any(bad) and tail in ("absent", "valid")):
+                        env.violation({"kind": "verdict", **feats}, wit)
+        finally:
+            sys.modules.pop(mod.__name__, None)
+            linecache.cache.pop(fn, None)
+
+
 def run(env):
     harness.tag_errors(True)
     if env.shard == 0:
         newtype_workload(env)
         aggregate_workload(env)
+        cycle_workload(env)
         # the REQUIRED counter is merged by sum, so counting in one shard is enough
     if env.quick():
         nprog = env.n(4400, 0)
